@@ -248,4 +248,53 @@ theorem examine_depth_bounded (g : FGraph) (n f : Nat) (hc : ClosedGraph g n) (h
   obtain ⟨r, hr, rfl⟩ := h
   exact (depth_bounded g n hc _).1 [] (some f) r List.nodup_nil (by simp) (by intro f' h; cases h; exact hf) hr
 
+/-! ### the answer does not depend on the fuel -/
+
+/-- more fuel changes nothing once the examination has returned: `examineTrace` is the behaviour of
+    the procedure, not an artefact of the bound `2·n + 2` -/
+theorem fuel_mono (g : FGraph) : ∀ (b : Nat),
+    (∀ (stack : List Nat) (c : Option Nat) (r : List Ev × List Nat),
+      forgedF g b stack c = some r → forgedF g (b + 1) stack c = some r) ∧
+    (∀ (stack : List Nat) (f : Nat) (r : List Ev × Option (List Nat)),
+      guardedF g b stack f = some r → guardedF g (b + 1) stack f = some r) := by
+  intro b
+  induction b with
+  | zero =>
+    constructor
+    · intro stack c r h; rw [forgedF] at h; cases h
+    · intro stack f r h; rw [guardedF] at h; cases h
+  | succ b ih =>
+    constructor
+    · intro stack c r h
+      cases c with
+      | none => rw [forgedF] at h ⊢; exact h
+      | some f =>
+        rw [forgedF] at h
+        cases hg : guardedF g b stack f with
+        | none => rw [hg] at h; cases h
+        | some r1 =>
+          have hg' := ih.2 stack f r1 hg
+          rw [forgedF, hg']
+          rw [hg] at h
+          exact h
+    · intro stack f r h
+      rw [guardedF] at h
+      rw [guardedF]
+      by_cases hmem : stack.contains f = true
+      · simp only [hmem, if_true] at h ⊢; exact h
+      · simp only [hmem] at h ⊢
+        cases hf : forgedF g b (f :: stack) (g.succ f) with
+        | none => rw [hf] at h; cases h
+        | some r1 =>
+          have hf' := ih.1 (f :: stack) (g.succ f) r1 hf
+          rw [hf'] 
+          rw [hf] at h
+          exact h
+
+theorem forgedF_fuel_le (g : FGraph) (b b' : Nat) (hle : b ≤ b') (stack : List Nat) (c : Option Nat)
+    (r : List Ev × List Nat) (h : forgedF g b stack c = some r) : forgedF g b' stack c = some r := by
+  induction hle with
+  | refl => exact h
+  | step _ ih => exact (fuel_mono g _).1 stack c r ih
+
 end SV
